@@ -169,6 +169,7 @@ type rig struct {
 	viewIDs []uint64
 	qnIDs   []uint64
 	cleanup func()
+	kept    map[int]*keptBuilder // key builders kept for reuse, per view
 }
 
 func newRig(backend string, views []viewSpec) (*rig, error) {
